@@ -141,11 +141,18 @@ pub fn split_words(text: &str) -> Words {
 /// f = 1000, §1091 `norm_min`… `space_factor:=1000`). The glue of a trailing space token is
 /// included when `with_trailing` is set; `line_break` removes it again (§816).
 pub fn text_glues(t: &Words, sf_code: &dyn Fn(u32) -> i64, font: &FontSpace, space_skip: &Spec, xspace_skip: &Spec, sw: SfSwitches, with_trailing: bool) -> Result<(Vec<Spec>, Vec<i64>), ()> {
+    text_glues_fonts(t, sf_code, &|_| *font, space_skip, xspace_skip, sw, with_trailing)
+}
+
+/// The same when the current font changes between words: `font_of_word(i)` is the font that is
+/// current while word i and the space after it are processed (§1042 takes the glue of a space from
+/// `cur_font` at the time of the space token). A leading space is processed in the font of word 0.
+pub fn text_glues_fonts(t: &Words, sf_code: &dyn Fn(u32) -> i64, font_of_word: &dyn Fn(usize) -> FontSpace, space_skip: &Spec, xspace_skip: &Spec, sw: SfSwitches, with_trailing: bool) -> Result<(Vec<Spec>, Vec<i64>), ()> {
     let mut sf = 1000i64;
     let mut out = vec![];
     let mut sfs = vec![];
     if t.leading && !t.words.is_empty() {
-        out.push(space_glue(sf, font, space_skip, xspace_skip, sw)?);
+        out.push(space_glue(sf, &font_of_word(0), space_skip, xspace_skip, sw)?);
         sfs.push(sf);
     }
     for (i, w) in t.words.iter().enumerate() {
@@ -153,7 +160,7 @@ pub fn text_glues(t: &Words, sf_code: &dyn Fn(u32) -> i64, font: &FontSpace, spa
             sf = adjust_sf(sf, sf_code(c as u32));
         }
         if i + 1 < t.words.len() || (with_trailing && t.trailing) {
-            out.push(space_glue(sf, font, space_skip, xspace_skip, sw)?);
+            out.push(space_glue(sf, &font_of_word(i), space_skip, xspace_skip, sw)?);
             sfs.push(sf);
         }
     }
